@@ -315,6 +315,13 @@ def run(c, tier):
     # ---- 2. T: random histories on the real Synchronizer ------------------------------------------------------------------
     evs = [e for o in outs for e in o]
     sit = situations(evs)
+    # validation first: a history the specification rejects is reported even when (or because) the code under test no
+    # longer produces one of the situations the vacuity guards below ask for
+    good, bad = validate(c, evs, "drive", {"source": "drive", "seed": V.seed(), "tier": tier})
+    if bad:
+        g.update({"histories": len(_split(evs)), "events_validated": good, "histories_rejected": bad, "situations": sit})
+        c.set("growth_syncevict", g)
+        return
     for what in ("evictions", "getheaders", "timers_cleared_by_catching_up", "timers_rearmed_by_catching_up", "inbound_behind_skipped"):
         if sit.get(what, 0) == 0:
             raise V.ToolError("syncevict histories are vacuous: no %s" % what)
@@ -322,7 +329,6 @@ def run(c, tier):
         raise V.ToolError("syncevict histories are vacuous: no protected / whitelisted peer reached the second deadline")
     if not quick and sit.get("suspends", 0) == 0:
         raise V.ToolError("syncevict histories are vacuous: no suspend of a protected peer")
-    good, bad = validate(c, evs, "drive", {"source": "drive", "seed": V.seed(), "tier": tier})
     # self-test of the binding: single-field corruptions of the richest real history must be rejected where they were made
     rich = max(_split(evs), key=lambda h: len(_corruptions(h)))
     g["corruptions_rejected"] = bite(rich, 2 if quick else 6)
